@@ -48,6 +48,29 @@ theorem orderItems_decl (c : Case) (fwd : Bool) (h : ∀ f ∈ c.fields, fieldRe
   intro f hf
   exact mkItem_decl fwd _ f (hmem f (List.mem_filter.1 hf).1)
 
+theorem keyTags_decl (c : Case) (h : ∀ f ∈ c.fields, fieldRejected f = false) :
+    keyTags c false = declKeyTags c := by
+  unfold keyTags declKeyTags attrList
+  simp only [Bool.false_eq_true, if_false]
+  have hmem : ∀ f ∈ (c.fields.filter (·.inBase) ++ c.fields.filter (fun f => !f.inBase)), fieldRejected f = false := by
+    intro f hf
+    rcases List.mem_append.1 hf with hf | hf
+    · exact h f (List.mem_filter.1 hf).1
+    · exact h f (List.mem_filter.1 hf).1
+  have hfilt : (c.fields.filter (·.inBase) ++ c.fields.filter (fun f => !f.inBase)).filter
+        (fun f => f.orderPart && f.orderView != .raw)
+      = (c.fields.filter (·.inBase) ++ c.fields.filter (fun f => !f.inBase)).filter
+        (fun f => (declPart f).1 && (declPart f).2 != .raw) := by
+    apply List.filter_congr
+    intro f hf
+    obtain ⟨h1, h2⟩ := (field_ok f).2 (hmem f hf)
+    rw [h1, h2]
+  rw [hfilt]
+  apply List.map_congr_left
+  intro f hf
+  obtain ⟨_, h2⟩ := (field_ok f).2 (hmem f (List.mem_filter.1 hf).1)
+  rw [h2]
+
 theorem built_fields (c : Case) (hb : built c = true) : ∀ f ∈ c.fields, fieldRejected f = false := by
   intro f hf
   have h2 : (fieldErrs c).isEmpty = true := by
